@@ -1,6 +1,7 @@
 """C10 - wire encoding/decoding are exact inverses; packets are well-framed."""
 import socket
 import struct
+import time
 import zlib
 
 import common
@@ -380,6 +381,64 @@ def run(ctx):
         r = impl_unframe(sshv, list(chunks), end)
         sock = '{| s_buf := []; s_chunks := %s; s_end := %s |}' % (clist(chunks, cbytes), 'Close' if end == 'close' else 'Stall')
         add('pkt_eqb (snd (read_packet%d %s)) %s' % (sshv, sock, cpkt(r)), {'op': 'unframe', 'sshv': sshv, 'mode': mode, 'data': data.hex(), 'end': end, 'impl': repr(r)}, ('unframe', sshv, mode, r[0]))
+    # ---- what the tool really emits: every packet captured by scripted peers during real audits (standard, policy, client) ----
+    import peers as P
+    import runner
+    ed, rsa = P.ed25519_blob(), P.rsa_blob(3072)
+    emit_specs = [
+        dict(banner=b'SSH-2.0-OpenSSH_8.9', kex=['curve25519-sha256', 'diffie-hellman-group-exchange-sha256'], key=['ssh-ed25519', 'rsa-sha2-512'], enc=['aes256-ctr'], mac=['hmac-sha2-256'], hostkeys={b'ssh-ed25519': ed, b'rsa-sha2-512': rsa}, gex=lambda a, b, c: max(a, min(c, 3072))),
+        dict(banner=b'SSH-2.0-dropbear_2022.83', kex=['diffie-hellman-group-exchange-sha1', 'diffie-hellman-group14-sha256', 'ecdh-sha2-nistp521'], key=['rsa-sha2-256', 'ssh-rsa'], enc=['3des-cbc', 'chacha20-poly1305@openssh.com'], mac=['hmac-sha1'], hostkeys={b'rsa-sha2-256': rsa, b'ssh-rsa': rsa}, gex=lambda a, b, c: 2048 if a <= 2048 <= c else None),
+        dict(banner=b'SSH-2.0-x', kex=['priv\u00e9-kex@example.org'.encode(), b'diffie-hellman-group16-sha512'], key=['ssh-ed25519', 'caf\u00e9-key'.encode()], enc=['aes128-gcm@openssh.com'], mac=['umac-128-etm@openssh.com'], hostkeys={b'ssh-ed25519': ed}),
+    ]
+    emit_opts = [[], ['-P', 'Hardened OpenSSH Server v9.9 (version 1)'], ['-v'], ['-2']]
+
+    def do_emit(z, c):
+        spec, opts = c
+        srv = P.new_ssh2_server(dict(spec), stall_limit=3.0)
+        try:
+            r = z.run(['-n', '--skip-rate-test', '-t', '2'] + opts + ['127.0.0.1:%d' % srv.port], timeout=120)
+            time.sleep(0.05)
+            return {'rc': r['rc'], 'raw': list(srv.rx_raw), 'conns': srv.conns()}
+        finally:
+            srv.shutdown()
+    ecases = [(sp, o) for sp in emit_specs for o in (emit_opts if not q else emit_opts[:2])]
+    with runner.Pool(8) as pool:
+        eres = pool.map(do_emit, ecases)
+    from ssh_audit.ssh2_kex import SSH2_Kex as _K
+    from ssh_audit.outputbuffer import OutputBuffer as _OB
+    n_emit = 0
+    for (sp, o), r in zip(ecases, eres):
+        for idx, raw in r['raw']:
+            n_emit += 1
+            d = {'op': 'emitted packet', 'opts': o, 'banner': sp['banner'].decode(), 'connection': idx, 'packet': raw.hex()[:400]}
+            try:
+                pl, rest = rfc_decode_packet(raw)
+                assert rest == b'' and len(pl) >= 1
+            except AssertionError as e:
+                ctx.violation('emitted-packet-malformed', 'a packet the tool sent on connection %d violates RFC 4253 section 6: %s' % (idx, e), d)
+                continue
+            nontriv.add(('emitted', pl[0], len(raw) % 16))
+            if impl_unframe(2, [raw], 'close') != ('ok', pl[0], pl[1:]):
+                ctx.violation('emitted-packet-readback', 'the tool\'s own reader does not return the payload of a packet the tool sent (type %d)' % pl[0], d)
+            if pl[0] == 20:   # the KEXINIT the tool sends: decodes with the independent decoder, and parse -> payload is the identity
+                try:
+                    body = pl[1:]
+                    pos = 16
+                    for _ in range(10):
+                        ln = int.from_bytes(body[pos:pos + 4], 'big'); assert pos + 4 + ln <= len(body), 'name-list overruns the payload'
+                        pos += 4 + ln
+                    assert pos + 5 == len(body), 'trailing bytes after the KEXINIT fields: %d' % (len(body) - pos - 5)
+                except AssertionError as e:
+                    ctx.violation('emitted-kexinit-malformed', 'the KEXINIT the tool sent on connection %d does not decode: %s' % (idx, e), d)
+                    continue
+                k2 = _K.parse(_OB(), pl[1:])
+                if k2.payload != pl[1:]:
+                    ctx.violation('emitted-kexinit-reencode', 'parsing the KEXINIT the tool sent and writing it again gives different bytes', d)
+                if len(pl) <= 1500:
+                    add('match parse_kexinit %s with Ok (k, []) => res_eqb zs_eqb (write_kexinit k) (Ok %s) | _ => false end' % (cbytes(pl[1:]), cbytes(pl[1:])), d, ('emitted-kexinit', len(pl) % 8))
+    hist['emitted packets'] = n_emit
+    if n_emit < len(ecases) * 2:
+        ctx.violation('emitted-none', 'the scripted peers captured only %d packets over %d audits' % (n_emit, len(ecases)), {'op': 'emitted packet'})
     # ---- CRC ----
     from ssh_audit.ssh1 import SSH1
     for _ in range(60 if q else 3000):
